@@ -59,6 +59,9 @@ def instances(tier):
                 continue
             out.append(dict(id="controller-%s-dim%d" % (nm, dim), kind="controller", cls=nm, shape=[dim], budget=b))
     out.append(dict(id="controller-history-HeunEulerSolver", kind="controller_history", cls="HeunEulerSolver", shape=[1], budget=b))
+    for meth in ("RK45", "richardson:EulerSolver", "richardson:HeunEulerSolver"):
+        for leg in (False, True):
+            out.append(dict(id="tolerance-flow-%s%s" % (meth.replace(":", "-"), "-after-first-leg" if leg else ""), kind="tolerance_flow", method=meth, first_leg=leg, N=2, budget=b))
     out.append(dict(id="controller-implicit-aware-RadauIIA5", kind="controller_implicit", cls="RadauIIA5", shape=[1], budget=b))
     for base in ("EulerSolver", "RK4Solver", "SymplecticEulerSolver"):
         out.append(dict(id="richardson-retry-%s" % base, kind="richardson", cls=base, budget=dict(b, max_branches=150, max_paths=60, wall_s=50)))
@@ -186,6 +189,9 @@ def scenario(c, inst):
     if kind == "controller_history":
         _controller_history(c, inst)
         return
+    if kind == "tolerance_flow":
+        _tolerance_flow(c, inst)
+        return
     if kind == "richardson":
         _richardson(c, inst)
         return
@@ -250,10 +256,71 @@ def _controller(c, inst):
         c.check("c05.error_norm_ge_4_implies_redo", c.lt(err2, 16, 1))
 
 
+def _tolerance_flow(c, inst):
+    """the tolerances the step controller is handed are the ones currently set on the system - also when they were changed through
+    the rtol / atol setters after the method was chosen (and after a first leg of the integration).  The controller itself is replaced
+    (for every integrator class at once) by a recorder that accepts every step: only the data flow is decided here."""
+    import desolver as de
+    import desolver.integrators as I
+    import desolver.integrators.integrator_template as tmpl
+    t0, tf, dt0 = c.real("t0"), c.real("tf"), c.real("dt0")
+    spans.input_assumptions(c, dict(inst, family="euler"), t0, tf, dt0)
+    tols = {}
+    for nm in ("r1", "a1", "r2", "a2"):
+        v = c.real(nm)
+        c.assume(v >= 1e-9)
+        c.assume(v <= 1e-2)
+        tols[nm] = v
+    meth = inst["method"]
+    if meth.startswith("richardson:"):
+        meth = I.generate_richardson_integrator(getattr(I, meth.split(":")[1]), richardson_iter=2)
+    shape = (1,)
+    rhs = FreshRhs(c, shape)
+    y0 = c.array([c.real("y0_0")])
+    rec = []
+
+    def recorder(self, ignore_custom_adaptation=False):
+        sd = self.solver_dict
+        rec.append(dict(obj=self, sd_atol=sd.get("atol"), sd_rtol=sd.get("rtol"), atol=self.atol, rtol=self.rtol,
+                        bases=[(b.atol, b.rtol) for b in getattr(self, "basis_integrators", [])]))
+        return sd.get("timestep", self.dTime), False
+
+    def build():
+        a = de.OdeSystem(rhs, y0=y0, t=(t0, tf), dt=dt0, rtol=tols["r1"], atol=tols["a1"])
+        a.method = meth
+        return a
+    with patched(tmpl.IntegratorTemplate, "update_timestep", recorder):
+        st, a = run(build)
+        if st != "ok":
+            c.check("c05.tol.constructs", False, info=repr(a)[:200])
+            return
+        if inst.get("first_leg"):
+            st, r = run(a.integrate, t0 + 0.5 * (tf - t0), callback=[spans.cap_callback(c, 6, "adaptive")])
+            if st != "ok":
+                return
+            c.check("c05.tol.first_leg_controller_sees_constructor_tolerances", len(rec) > 0 and c.all(
+                [c.all([c.eq(e["sd_atol"], tols["a1"]), c.eq(e["sd_rtol"], tols["r1"])]) for e in rec]))
+        st, r = run(setattr, a, "rtol", tols["r2"])
+        st2, r2 = run(setattr, a, "atol", tols["a2"])
+        c.check("c05.tol.setters_return", st == "ok" and st2 == "ok", info=repr((r, r2))[:200])
+        del rec[:]
+        st, r = run(a.integrate, callback=[spans.cap_callback(c, 6, "adaptive")])
+        if st != "ok":
+            return
+        c.case()
+        c.check("c05.tol.controller_invoked", len(rec) > 0)
+        c.check("c05.tol.controller_sees_current_tolerances", c.all(
+            [c.all([c.eq(e["sd_atol"], tols["a2"]), c.eq(e["sd_rtol"], tols["r2"])]) for e in rec]), info=dict(invocations=len(rec)))
+        c.check("c05.tol.integrator_and_its_basis_integrators_hold_current_tolerances", c.all(
+            [c.all([c.eq(e["atol"], tols["a2"]), c.eq(e["rtol"], tols["r2"])] + [c.all([c.eq(ba, tols["a2"]), c.eq(br, tols["r2"])]) for ba, br in e["bases"]])
+             for e in rec]))
+        c.check("c05.tol.system_reports_current_tolerances", c.all([c.eq(a.rtol, tols["r2"]), c.eq(a.atol, tols["a2"])]))
+
+
 def _controller_history(c, inst):
     """two consecutive real __call__s of ONE integrator with the REAL controller: a step from (t1, yA) and then a step from an
-    arbitrary other point (t2, yB).  If the second step is accepted at its first attempt, its error estimate must meet the tolerance
-    formed from ITS OWN data (atol + rtol*max(|yB|, |dY/dT|)) - whatever the first step looked like."""
+    arbitrary other point (t2, yB), each with up to max_attempts attempts.  Whatever came before - the earlier step, rejected attempts
+    of the same call - the attempt that is accepted must meet the tolerance formed from ITS OWN data."""
     from srx import core
     cls = _cls(inst["cls"])
     shape = tuple(inst["shape"])
@@ -270,7 +337,6 @@ def _controller_history(c, inst):
         return orig_step(rhs_, t_, y_, consts, hh)
     integ.step = step
     atol = rtol = 1e-6
-    states = []
     for k in range(2):
         t, h = c.real("t%d" % k), c.real("h%d" % k)
         c.assume(h != 0)
@@ -284,21 +350,21 @@ def _controller_history(c, inst):
         st, r = run(integ, rhs, t, y, {}, h)
         if st != "ok":
             return          # FailedToMeetTolerances etc. are the other instances' subject
-        states.append((y, r, len(attempts)))
-    y, (new_h, (dT, dY)), natt = states[1]
-    c.note("attempts_second_call", natt)
-    if natt != 1:
-        return
-    e = integ.solver_dict["diff"]
-    err2 = 0
-    for yi, di, ei in zip(flat(c, y), flat(c, dY), flat(c, e)):
-        s1 = absval(c, yi)
-        s2 = absval(c, di / dT) if c.symbolic else abs(di / dT)
-        si = core.sym_max(s1, s2) if c.symbolic else max(s1, s2)
-        q = ei / (atol + rtol * si)
-        err2 = err2 + q * q
-    c.check("c05.history.accepted_step_meets_tolerance_of_its_own_state", c.le(err2, 1, 1), info=dict(cls=inst["cls"]))
-    c.check("c05.history.next_step_has_sign_of_dT", c.lt(0, new_h * dT))
+        natt = len(attempts)
+        new_h, (dT, dY) = r
+        c.note("attempts_call_%d" % k, natt)
+        # whatever happened before (an earlier step, rejected attempts of this call): the attempt that is ACCEPTED meets the tolerance
+        # formed from its own data, atol + rtol*max(|y|, |dY/dT|)
+        e = integ.solver_dict["diff"]
+        err2 = 0
+        for yi, di, ei in zip(flat(c, y), flat(c, dY), flat(c, e)):
+            s1 = absval(c, yi)
+            s2 = absval(c, di / dT) if c.symbolic else abs(di / dT)
+            si = core.sym_max(s1, s2) if c.symbolic else max(s1, s2)
+            q = ei / (atol + rtol * si)
+            err2 = err2 + q * q
+        c.check("c05.history.accepted_step_meets_tolerance_of_its_own_state", c.le(err2, 1, 1), info=dict(cls=inst["cls"], call=k, attempts=natt))
+        c.check("c05.history.next_step_has_sign_of_dT", c.lt(0, new_h * dT))
 
 
 def _richardson(c, inst):
